@@ -126,7 +126,9 @@ SameDeliveries(msgs, out) ==
 \* C09 on one received message r.
 ContentGuards(msgs) ==
     { G("C09", \A i \in 1..Len(msgs) : msgs[i].m \in DOMAIN pubs),
-      G("C09", \A i \in 1..Len(msgs) :
+      \* (the id a Publish response gave for its i-th message is the id under which exactly that
+      \* message is delivered: C08 "one id per submitted message, in request order" as well as C09)
+      G("C08,C09", \A i \in 1..Len(msgs) :
                  msgs[i].m \in DOMAIN content =>
                     content[msgs[i].m] = [data |-> msgs[i].data, attrs |-> msgs[i].attrs]),
       G("C09", \A i \in 1..Len(msgs) : msgs[i].m \in DOMAIN ptime => ptime[msgs[i].m] = msgs[i].pt),
@@ -312,11 +314,13 @@ RetGuards(c, e) ==
         { G("C10", e.code = "NOT_FOUND" => None \in TopicLookups(W, p.topic)) }
       [] p.op = "Pull" ->
         { G("C10", e.code = "NOT_FOUND" => (None \in SubLookups(W, p.sub) \/ RacedDeletion(W, p.sub))),
+          G("C10", e.code = "OK" => SubLookups(W, p.sub) \ {None} # {}),
           G("C15", e.code = "OK" => (p.max >= 1 => Len(e.body.msgs) <= p.max)),
           \* a blocking pull answers no later than its wait limit (judged under the paused clock)
           G("C07", (JudgeLate /\ ~p.ri) => e.t - p.t <= WaitLimit + Prompt),
-          G("C15", (e.code = "OK" /\ e.body.msgs = <<>>) =>
-                       (p.ri \/ e.t - p.t >= MinWait \/ RacedDeletion(W, p.sub))),
+          \* an empty answer only with return_immediately or after the wait limit - a subscription
+          \* that is being deleted is no excuse either (that Pull ends with an error status, C12)
+          G("C15", (e.code = "OK" /\ e.body.msgs = <<>>) => (p.ri \/ e.t - p.t >= MinWait)),
           G("C03", (e.code = "OK" /\ e.body.msgs # <<>>) =>
                        \E w \in W : w.k = "s.pull" /\ w.si \in SubLookups(W, p.sub) /\ SameDeliveries(e.body.msgs, w.out)),
           G("C12", e.code \notin {"OK", "NOT_FOUND"} => RacedDeletion(W, p.sub)),
@@ -326,12 +330,15 @@ RetGuards(c, e) ==
         \cup (IF e.code = "OK" THEN ContentGuards(e.body.msgs) ELSE {})
       [] p.op = "Ack" ->
         { G("C10", e.code = "NOT_FOUND" => (None \in SubLookups(W, p.sub) \/ RacedDeletion(W, p.sub))),
+          \* answered OK: the name was looked up and bound (also for an empty batch)
+          G("C10", e.code = "OK" => SubLookups(W, p.sub) \ {None} # {}),
           G("C17", e.code = "INVALID_ARGUMENT" <=> ~AcksAreInts(p)),
           G("C02", e.code = "OK" => \E w \in W : w.k = "s.ack" /\ w.si \in SubLookups(W, p.sub) /\ w.acks = p.acks),
           G("C17", (e.code = "INVALID_ARGUMENT" /\ Solo(c)) => ~\E w \in W : w.k = "s.ack"),
           G("C12", e.code \notin {"OK", "NOT_FOUND", "INVALID_ARGUMENT"} => RacedDeletion(W, p.sub)) }
       [] p.op = "ModAck" ->
         { G("C10", e.code = "NOT_FOUND" => (None \in SubLookups(W, p.sub) \/ RacedDeletion(W, p.sub))),
+          G("C10", e.code = "OK" => SubLookups(W, p.sub) \ {None} # {}),
           G("C05", e.code = "INVALID_ARGUMENT" <=> (p.acks # <<>> /\ (~AcksAreInts(p) \/ p.secs < 0))),
           G("C05", (e.code = "INVALID_ARGUMENT" /\ Solo(c)) => ~\E w \in W : w.k = "s.mod"),
           G("C05", e.code = "OK" => \E w \in W : w.k = "s.mod" /\ w.si \in SubLookups(W, p.sub)
